@@ -372,6 +372,8 @@ def _known(fr: Frame, name: str, e, args, kwargs, env, guard, stmt):
             c = r.is_const()
             if c is not None:
                 return Rat.const(int(c))
+            if _integer_valued(r):
+                return r            # int() of an index / count is the identity
             return anf.opaque("int", r, array=False)
         return lift(to_int, a(0))
     if name in ("math.ceil", "math.floor"):
@@ -398,6 +400,22 @@ def _known(fr: Frame, name: str, e, args, kwargs, env, guard, stmt):
     if name == "math.atan":
         return lift(lambda v: anf.opaque("atan", R(v)), a(0))
     return _opaque_call(fr, name, args, kwargs)
+
+
+_INT_FNS = {"argmax", "argmin", "int", "ceil", "floor", "len", "round"}
+
+
+def _integer_valued(r: Rat) -> bool:
+    """Polynomial with integer coefficients over integer-valued atoms (indices, counts)."""
+    if r.den != {(): 1}:
+        return False
+    for m, c in r.num.items():
+        if c.denominator != 1:
+            return False
+        for at, _e in m:
+            if not (at.kind == "fn" and at.name in _INT_FNS):
+                return False
+    return True
 
 
 def _sum_items(fr: Frame, v: Vec) -> Rat:
